@@ -45,7 +45,7 @@ fn main() {
             let mut out = String::from("ok");
             for r in 0..2 {
                 let b = 4 + 4 * r;
-                let edns = f[b + 3] == "1" || f[b + 2].starts_with('v');
+                let edns = f[b + 3] == "1" || forces_edns(f[b + 2]);
                 let q = query(f[b + 2], edns, 0x4321 + r as u16);
                 let resp = send(&server, &q, addr(f[b]), parse_transport(f[b + 1]), &mut buf);
                 let c = classify(&resp, &buf, edns);
